@@ -416,7 +416,8 @@ ThmRoundTripCloses == (kind = "C" /\ inp.k = "M" /\ inp.ty \in IntTypes) =>
 ThmNonFinite == (kind = "C" /\ inp.k = "M" /\ inp.ty = "Float" /\ inp.ca = "ctx") =>
    (inp.cl \in FloatNonFinite <=> inp.out = "err")
 \* value ranges are intervals of the integer line and nest as the widths do
-ThmRanges == /\ I32 \subseteq I64 /\ U32 \subseteq U64 /\ U64 \cap I64 = Span("0", "maxI64")
+ASSUME ThmRanges ==
+             /\ I32 \subseteq I64 /\ U32 \subseteq U64 /\ U64 \cap I64 = Span("0", "maxI64")
              /\ \A ty \in IntTypes : \A i, j \in 1..Len(IntPts) :
                   (IntPts[i] \in RangeOf(ty) /\ IntPts[j] \in RangeOf(ty)) =>
                       \A m \in i..j : IntPts[m] \in RangeOf(ty)
